@@ -8,7 +8,7 @@ RULE = ("case = (user/sys clock period pair and phases: equal, 2:1, 1:2, 3:7, 7:
         "depths; traffic class; back-pressure profile of the abstract core stub; user-side back-pressure on returned read data "
         "(rdata.ready random, at most rdata_depth-2 reads kept outstanding) in half of the reading cases; seed); LiteDRAMNativePortCDC between a "
         "user-domain contract master and the sys-domain pulsed core stub, two free-running clocks; per channel the sequence "
-        "accepted on the source side must equal the sequence delivered on the destination side (exactly once, in order, "
+        "accepted on the source side must equal the sequence delivered on the destination side (exactly once, in order, every payload field incl. the random cmd.last hint, "
         "nothing invented) and user-side memory semantics must hold; non-trivial iff >=100 commands and >=40 words per data "
         "channel crossed and back-pressure was observed on the user side; distinct = distinct (clock pair, depths, class)")
 ASSUMPTIONS = [
@@ -231,7 +231,7 @@ def run_case(c):
         else:
             a = r.choice(hot) if r.random() < 0.7 else r.randrange(1 << aw)
         we = {"write": True, "read": False}.get(c["mode"], r.random() < 0.5)
-        o = Op(heavy_gap(r, c["gap_scale"]), we, a)
+        o = Op(heavy_gap(r, c["gap_scale"]), we, a, last=int(r.random() < 0.3))
         if we:
             o.data = r.getrandbits(dw)
             o.wemask = rand_wemask(r, nb, "mixed")
@@ -239,6 +239,7 @@ def run_case(c):
     violations = []
     m = NativeMaster(dut.port_user, ops, 0, oracle, c["master_mode"], violations)
     m.strobe_semantics = False
+    m.use_last = True      # the end-of-burst hint is part of the command payload (consumed by an up-converter behind the crossing)
     if c.get("rdata_ready_prob"):
         m.rdata_ready_prob, m.rdata_rng = c["rdata_ready_prob"], random.Random(c["seed"] + "/rbp")
         m.max_reads_outstanding = max(1, c["rdata_depth"] - 2)
@@ -269,8 +270,8 @@ def run_case(c):
         v.append(dict(kind="no-progress", reads_waiting=len(m.rq), writes_waiting=len(m.wq), cmd_stuck=bool(m._cmd_valid),
                       accepted=len(m.accepted), of=len(ops), stub_outstanding=stub.outstanding()))
     # channel monitors: source-side sequence == destination-side sequence
-    src_cmd = [(int(o.we), o.addr) for o in m.accepted]
-    dst_cmd = [(we, addr) for (_, we, addr) in stub.accepted[0]]
+    src_cmd = [(int(o.we), o.addr, int(o.last)) for o in m.accepted]
+    dst_cmd = [(we, addr, la) for (_, we, addr), la in zip(stub.accepted[0], stub.accepted_last[0])]
     if src_cmd[:len(dst_cmd)] != dst_cmd or (not v and len(src_cmd) != len(dst_cmd)):
         k = next((i for i in range(min(len(src_cmd), len(dst_cmd))) if src_cmd[i] != dst_cmd[i]), min(len(src_cmd), len(dst_cmd)))
         v.append(dict(kind="cmd-channel-differs", index=k, source=src_cmd[k:k + 2], destination=dst_cmd[k:k + 2],
